@@ -28,7 +28,7 @@ def _run(case):
             if self.current_state != st:
                 raise Violation('C18.state', f'during the action for state {st!r} at {env.now} current_state is '
                                 f'{self.current_state!r}')
-            log.append(('d', obj, time, st, env.now))
+            log.append(('d', obj[0], time, st, env.now))
 
     t0 = case.get('late') or 0
     box = {}
@@ -39,8 +39,21 @@ def _run(case):
         mine.reverse()                      # ... which it goes on to use for something else
         mine.append((7, 'edited'))
         del mine[0]
+    def fresh(o):
+        # registered objects are value-like: every call passes an equal but not identical object
+        return (o, 'obj')
     between = bool(case.get('between')) and len(case['T']) > 1
-    if between:
+    in_init = bool(case.get('init')) and not between and not t0
+    if in_init:
+        # the scheduler is created from inside another asset's initialize() when the first run starts
+        from simprocesd.model.factory_floor import Asset
+
+        class Maker(Asset):
+            def initialize(self, env_):
+                super().initialize(env_)
+                make()
+        Maker('maker')
+    elif between:
         t0 = case['T'][0]       # created after the first simulate() has returned, before the second starts
     elif t0:
         # the scheduler is created while the simulation is running: its timetable starts then
@@ -56,7 +69,7 @@ def _run(case):
         if sc.current_state != st:
             raise Violation('C18.state', f'during the action for state {st!r} at {env.now} current_state is '
                             f'{sc.current_state!r}')
-        log.append(('o', obj, time, st, env.now))
+        log.append(('o', obj[0], time, st, env.now))
 
     class Proxy:
         def __getattr__(self, name):
@@ -65,8 +78,8 @@ def _run(case):
 
     reg = []
     rets = []
-    for (o, ov) in (case['pre'] if not t0 else []):
-        r = sch.register_object(o, over if ov else None)
+    for (o, ov) in (case['pre'] if not (t0 or in_init) else []):
+        r = sch.register_object(fresh(o), over if ov else None)
         exp = o not in [x for x, _ in reg]
         if r != exp:
             raise Violation('C18.register-return', f'register_object({o}) returned {r}, expected {exp}')
@@ -75,9 +88,9 @@ def _run(case):
     for (t, prio, k, o, ov) in case['timed']:
         def act(k=k, o=o, ov=ov):
             if k == 'reg':
-                rets.append((env.now, k, o, sch.register_object(o, over if ov else None)))
+                rets.append((env.now, k, o, sch.register_object(fresh(o), over if ov else None)))
             else:
-                rets.append((env.now, k, o, sch.unregister_object(o)))
+                rets.append((env.now, k, o, sch.unregister_object(fresh(o))))
         env.schedule_event(t, -4, act, prio)
     T = sum(case['T'])
     samples = []
